@@ -83,6 +83,9 @@ pub enum FaultKind {
     LoadErrorInResults,
     /// load-configuration only: error-severity rpc-error followed by <ok/>; not performed
     LoadErrorThenOk,
+    /// the positive indication FOLLOWED by an error-severity rpc-error (inside
+    /// load-configuration-results for a load); not performed
+    OkThenError,
     /// the reply is not well-formed XML
     Malformed,
     /// the reply is cut in the middle (the delimiter still follows)
@@ -603,7 +606,7 @@ impl Junos {
             applied: false,
         };
         op.paths("", &mut rec.paths);
-        let refuse = matches!(fault, Some(FaultKind::RpcError | FaultKind::LoadErrorInResults | FaultKind::LoadErrorThenOk | FaultKind::CloseBeforeReply));
+        let refuse = matches!(fault, Some(FaultKind::RpcError | FaultKind::LoadErrorInResults | FaultKind::LoadErrorThenOk | FaultKind::OkThenError | FaultKind::CloseBeforeReply));
         // ---- perform the operation on the model
         let mut warnings: Vec<String> = Vec::new();
         let mut body: Result<String, String> = match op.local.as_str() {
@@ -732,6 +735,16 @@ impl Junos {
                 FaultKind::LoadErrorThenOk => {
                     rec.reply = ReplyKind::Negative;
                     msgs.push(reply_doc(&id, &format!("<load-configuration-results>{}<ok/></load-configuration-results>", rpc_error("error", "operation-failed", "statement creation failed"))));
+                }
+                FaultKind::OkThenError => {
+                    rec.reply = ReplyKind::Negative;
+                    let e = rpc_error("error", "operation-failed", "statement creation failed");
+                    let positive = if op.local == "load-configuration" { "<load-configuration-results><ok/></load-configuration-results>".to_string() } else { b.clone() };
+                    let body = match positive.rfind("</load-configuration-results>") {
+                        Some(i) => format!("{}{e}{}", &positive[..i], &positive[i..]),
+                        None => format!("{positive}{e}"),
+                    };
+                    msgs.push(reply_doc(&id, &body));
                 }
                 FaultKind::Malformed => {
                     rec.reply = ReplyKind::Garbage;
